@@ -104,6 +104,9 @@ pub struct EmuStats {
     pub multi_block_objects: u64,
     pub marker_kinds: BTreeMap<String, u64>,
     pub max_env: usize,
+    /// first variable location found changed between the marker of a print statement and the next
+    /// marker (a print leaves the context as it is); not a violation by itself, see C13
+    pub print_changed: Option<String>,
 }
 
 pub struct EmuResult {
